@@ -23,7 +23,7 @@ RULE = ('cases are 4-10 steps: emit (a PGPy-made artifact whose packets are re-p
 TIERS = {'quick': {'runs': 3000, 'budget_s': 80}, 'thorough': {'runs': 150000, 'budget_s': 1500}}
 PROBES = ('own_key_private', 'own_key_protected', 'own_signature', 'own_message', 'own_encrypted', 'relay_accepted', 'relay_rejected',
           'framing_old', 'framing_5octet', 'framing_partial', 'framing_partial_final5', 'framing_indeterminate', 'unknown_tag', 'unknown_version',
-          'uid_invalid_utf8', 'filename_non_ascii', 'secret_usage255', 'secret_gnu_dummy', 'secret_gnu_card_stub', 'nested_compressed', 'edit_protect_old_format',
+          'uid_invalid_utf8', 'uid_not_nfc', 'filename_non_ascii', 'secret_usage255', 'secret_gnu_dummy', 'secret_gnu_card_stub', 'nested_compressed', 'edit_protect_old_format',
           'edit_add_uid', 'trust_odd_length', 'uattr_two_subpackets', 'uattr_image_header_other_version', 'uattr_image_header_other_length', 'uattr_three_images')
 RELAY_KINDS = ['uid', 'uid', 'literal', 'literal', 'sig', 'sig', 'pubkey', 'pubsub', 'seckey', 'secsub', 'pkesk', 'skesk', 'ops', 'compressed',
                'sed', 'seipd', 'mdc', 'marker', 'trust', 'uattr', 'unknown_tag', 'unknown_version']
@@ -136,8 +136,12 @@ def build_foreign(step, ctx, run_seed):
         q = r.random()
         if q < 0.5:
             return 13, ('User %d <u%d@example.org>' % (r.randrange(1000), n)).encode()
-        if q < 0.75:
+        if q < 0.65:
             return 13, 'Ünïcödé ☃ <x@example.org>'.encode('utf-8')
+        if q < 0.8:
+            # valid UTF-8 that is not in a composed normal form: decomposed accents, Angstrom and Ohm signs, a compatibility ideograph
+            ctx.probe('uid_not_nfc')
+            return 13, r.choice(['Jose\u0301 Nun\u0303ez <j@example.org>', '\u212bngstro\u0308m \u2126 <a@example.org>', '\uf900 \u1e9b\u0323 <c@example.org>']).encode('utf-8')
         ctx.probe('uid_invalid_utf8')
         return 13, b'Latin\xe9 \xff\xfe name'
     if kind == 'literal':
